@@ -3,13 +3,16 @@ package main
 // C17: ingest receiver bookkeeping — ops `ctr`, `buf`, `gen` (through the verif exports of the receiver package).
 
 import (
+	"bufio"
 	"bytes"
 	"context"
+	"encoding/json"
 	"fmt"
 	"github.com/Eyevinn/mp4ff/mp4"
 	"io"
 	"log/slog"
 	"os"
+	"os/exec"
 	"path/filepath"
 	"regexp"
 	"sort"
@@ -346,146 +349,228 @@ func genC17(c *Ctx) {
 // sequence numbers and decode times are on the segment grid, and channels that the receiver renumbers ("shifted":
 // numbers unrelated to time, decode times off the grid).
 func c17Storage(c *Ctx) {
-	r := c.Rng
+	n := c.N(6, 40)
+	from := 0
+	for from < n {
+		cmd := exec.Command(os.Args[0], "c17child", strconv.FormatUint(c.Rng.s, 10), strconv.Itoa(from), strconv.Itoa(n))
+		var se strings.Builder
+		cmd.Stderr = &se
+		out, _ := cmd.Output()
+		begun, done, tag := -1, from-1, ""
+		for _, ln := range strings.Split(string(out), "\n") {
+			switch {
+			case strings.HasPrefix(ln, "B "):
+				f := strings.SplitN(ln, " ", 3)
+				begun, _ = strconv.Atoi(f[1])
+				if len(f) > 2 {
+					tag = f[2]
+				}
+			case strings.HasPrefix(ln, "T "):
+				tag = ln[2:]
+			case strings.HasPrefix(ln, "E "):
+				done, _ = strconv.Atoi(ln[2:])
+			case strings.HasPrefix(ln, "C "):
+				c.Count(ln[2:])
+			case strings.HasPrefix(ln, "V "):
+				var v Violation
+				if json.Unmarshal([]byte(ln[2:]), &v) == nil {
+					c.Violate(v.Kind, v.What, v.Ops, nil)
+				}
+			}
+		}
+		if done >= n-1 {
+			break
+		}
+		// the child died: the channel goroutine (or an upload handler) crashed the whole process in the run it had begun
+		why := "process exit"
+		for _, ln := range strings.Split(se.String(), "\n") {
+			if strings.HasPrefix(ln, "fatal error:") || strings.HasPrefix(ln, "panic:") {
+				why = strings.TrimSpace(ln)
+				break
+			}
+		}
+		if begun < 0 {
+			begun = from
+		}
+		c.Violate("receiver-fatal", "the whole receiver process dies ("+why+")", []string{tag}, nil)
+		from = begun + 1
+	}
+}
+
+// c17Child runs the receiver-level iterations from..n-1 and reports on stdout (B begin, T tag, C counter, V violation, E end).
+func c17Child(args []string) {
+	if len(args) != 3 {
+		os.Exit(2)
+	}
+	seed, _ := strconv.ParseUint(args[0], 10, 64)
+	from, _ := strconv.Atoi(args[1])
+	n, _ := strconv.Atoi(args[2])
+	w := bufio.NewWriter(os.Stdout)
 	slog.SetDefault(slog.New(slog.NewTextHandler(io.Discard, nil)))
 	vInit, e1 := readAsset("testpic_2s/V300/init.mp4")
 	aInit, e2 := readAsset("testpic_2s/A48/init.mp4")
 	if e1 != nil || e2 != nil {
+		os.Exit(3)
+	}
+	viol := func(kind, what string, ops []string, _ any) {
+		b, _ := json.Marshal(Violation{Kind: kind, What: what, Ops: ops})
+		fmt.Fprintf(w, "V %s\n", b)
+		w.Flush()
+	}
+	count := func(name string) { fmt.Fprintf(w, "C %s\n", name) }
+	for it := from; it < n; it++ {
+		r := &Rng{s: seed*1000003 + uint64(it)*7919 + 77}
+		fmt.Fprintf(w, "B %d\n", it)
+		w.Flush()
+		c17StorageRun(r, it, vInit, aInit, viol, count, func(tag string) { fmt.Fprintf(w, "T %s\n", tag); w.Flush() })
+		fmt.Fprintf(w, "E %d\n", it)
+		w.Flush()
+	}
+}
+
+func c17StorageRun(r *Rng, it int, vInit, aInit []byte, viol func(kind, what string, ops []string, _ any), count func(string), setTag func(string)) {
+	shifted := it%2 == 1
+	tsbd := uint64(r.Pick(4, 6, 10))
+	nSegs := r.Range(8, 16)
+	seq0 := uint32(r.Pick(1, 101, 5000))
+	off := uint64(0)
+	inSeq0 := seq0
+	if shifted {
+		off = uint64(r.Pick(9000, 45000, 90000)) // decode times 0.1 .. 1 s after a segment boundary (90 kHz)
+		inSeq0 = uint32(r.Pick(8090, 300, 77))
+	}
+	type trk struct {
+		name, ext string
+		init      []byte
+		src       string
+		ts        uint64
+	}
+	tracks := []trk{{"v0", ".cmfv", vInit, "testpic_2s/V300/%d.m4s", 90000}, {"a0", ".cmfa", aInit, "testpic_2s/A48/%d.m4s", 48000}}
+	if r.Intn(2) == 0 {
+		tracks = append(tracks, trk{"v1", ".cmfv", vInit, "testpic_2s/V300/%d.m4s", 90000})
+	}
+	dir, err := os.MkdirTemp(workDir(), "c17store")
+	if err != nil {
 		return
 	}
-	for it := 0; it < c.N(6, 40); it++ {
-		shifted := it%2 == 1
-		tsbd := uint64(r.Pick(4, 6, 10))
-		nSegs := r.Range(8, 16)
-		seq0 := uint32(r.Pick(1, 101, 5000))
-		off := uint64(0)
-		inSeq0 := seq0
-		if shifted {
-			off = uint64(r.Pick(9000, 45000, 90000)) // decode times 0.1 .. 1 s after a segment boundary (90 kHz)
-			inSeq0 = uint32(r.Pick(8090, 300, 77))
-		}
-		type trk struct {
-			name, ext string
-			init      []byte
-			src       string
-			ts        uint64
-		}
-		tracks := []trk{{"v0", ".cmfv", vInit, "testpic_2s/V300/%d.m4s", 90000}, {"a0", ".cmfa", aInit, "testpic_2s/A48/%d.m4s", 48000}}
-		if r.Intn(2) == 0 {
-			tracks = append(tracks, trk{"v1", ".cmfv", vInit, "testpic_2s/V300/%d.m4s", 90000})
-		}
-		dir, err := os.MkdirTemp(workDir(), "c17store")
-		if err != nil {
-			return
-		}
-		ctx, cancel := context.WithCancel(context.Background())
-		h, err := recv.VerifNewRouter(ctx, dir, tsbd, 0, nil, false)
-		if err != nil {
-			cancel()
-			os.RemoveAll(dir)
-			return
-		}
-		tag := fmt.Sprintf("# receiver run: %d tracks, %d segments from %d, tsbd=%d s, shifted=%v (offset %d ticks, incoming numbers from %d)", len(tracks), nSegs, seq0, tsbd, shifted, off, inSeq0)
-		bad := false
-		put := func(path string, body []byte) {
-			code, p := c19Put(h, c19Upload{path, body})
-			if p != "" || code >= 500 {
-				c.Violate("receiver-upload", fmt.Sprintf("PUT %s: %d %s", path, code, p), []string{tag, "# PUT " + path}, nil)
-				bad = true
-			}
-		}
-		for _, t := range tracks {
-			put("/upload/ch/"+t.name+"/init"+t.ext, t.init)
-		}
-		for k := 0; k < nSegs && !bad; k++ {
-			for _, t := range tracks {
-				b, err := readAsset(fmt.Sprintf(t.src, k%4+1))
-				if err != nil {
-					continue
-				}
-				f, err := mp4.DecodeFile(bytes.NewReader(b))
-				if err != nil {
-					continue
-				}
-				fr := f.Segments[0].Fragments[0]
-				fr.Moof.Mfhd.SequenceNumber = inSeq0 + uint32(k)
-				dt := (uint64(seq0)+uint64(k))*2*t.ts + off*t.ts/90000
-				if t.ts == 48000 {
-					dt = dt / 1024 * 1024
-				}
-				fr.Moof.Traf.Tfdt.SetBaseMediaDecodeTime(dt)
-				var buf bytes.Buffer
-				_ = f.Segments[0].Encode(&buf)
-				put(fmt.Sprintf("/upload/ch/%s/%d%s", t.name, inSeq0+uint32(k), t.ext), buf.Bytes())
-			}
-			time.Sleep(2 * time.Millisecond)
-		}
-		time.Sleep(80 * time.Millisecond) // the channel goroutine writes the MPD
-		c.Count("receiver-storage-runs")
-		if shifted {
-			c.Count("receiver-storage-runs.shifted")
-		}
-		if !bad {
-			maxBuf := int(tsbd*90000/180000) + 2 // maxNrBufSegs = tsbd * timescale / segment duration + 2
-			stored := map[string]map[int]bool{}
-			for _, t := range tracks {
-				stored[t.name] = map[int]bool{}
-				ents, _ := os.ReadDir(filepath.Join(dir, "ch", t.name))
-				for _, e := range ents {
-					if m := regexp.MustCompile(`^(\d+)\.cmf[avt]$`).FindStringSubmatch(e.Name()); m != nil {
-						n, _ := strconv.Atoi(m[1])
-						stored[t.name][n] = true
-					}
-				}
-				// numbers in the range of the incoming numbering of a shifted channel: stored before the shift was known
-				var leftover, window []int
-				for n := range stored[t.name] {
-					if shifted && n >= int(inSeq0) && n < int(inSeq0)+nSegs {
-						leftover = append(leftover, n)
-					} else {
-						window = append(window, n)
-					}
-				}
-				sort.Ints(leftover)
-				sort.Ints(window)
-				if len(window)+len(leftover) > maxBuf {
-					c.Violate("storage-window", fmt.Sprintf("track %s keeps %d media segments %v %v, the window implied by timeShiftBufferDepth=%d s is %d", t.name, len(window)+len(leftover), leftover, window, tsbd, maxBuf), []string{tag}, nil)
-					break
-				}
-				// a file stored under its incoming number has to leave at the pace of the others: once maxBuf later uploads arrived
-				if len(leftover) > 0 && leftover[0] <= int(inSeq0)+nSegs-1-maxBuf {
-					c.Violate("storage-unshifted-leftover", fmt.Sprintf("track %s still stores %v, uploaded before the channel turned out to be shifted: listed by no MPD and never deleted (window %v)", t.name, leftover, window), []string{tag}, nil)
-					break
-				}
-				if len(stored[t.name]) == 0 {
-					c.Violate("storage-empty", "track "+t.name+" has no stored segment after the run", []string{tag}, nil)
-				}
-			}
-			if mb, err := os.ReadFile(filepath.Join(dir, "ch", "manifest_timeline_nr.mpd")); err == nil {
-				if m, err := parseMPD(mb); err == nil && len(m.Periods) == 1 {
-					for i := range m.Periods[0].Sets {
-						as := &m.Periods[0].Sets[i]
-						if as.SegmentTemplate == nil || as.SegmentTemplate.StartNumber == nil {
-							continue
-						}
-						sn := int(*as.SegmentTemplate.StartNumber)
-						cnt := len(expandTL(as.SegmentTemplate))
-						for _, rp := range as.Representations {
-							for n := sn; n < sn+cnt; n++ {
-								if st, ok := stored[rp.ID]; ok && !st[n] {
-									c.Violate("listed-not-stored", fmt.Sprintf("the timeline MPD lists number %d for %s but no such file is stored (stored: %d files)", n, rp.ID, len(st)), []string{tag}, nil)
-									n = sn + cnt
-								}
-							}
-						}
-						c.Count("receiver-mpd-sets-checked")
-					}
-				}
-			}
-		}
+	ctx, cancel := context.WithCancel(context.Background())
+	h, err := recv.VerifNewRouter(ctx, dir, tsbd, 0, nil, false)
+	if err != nil {
 		cancel()
 		os.RemoveAll(dir)
+		return
 	}
+	tag := fmt.Sprintf("# receiver run: %d tracks, %d segments from %d, tsbd=%d s, shifted=%v (offset %d ticks, incoming numbers from %d)", len(tracks), nSegs, seq0, tsbd, shifted, off, inSeq0)
+	bad := false
+	put := func(path string, body []byte) {
+		code, p := c19Put(h, c19Upload{path, body})
+		if p != "" || code >= 500 {
+			viol("receiver-upload", fmt.Sprintf("PUT %s: %d %s", path, code, p), []string{tag, "# PUT " + path}, nil)
+			bad = true
+		}
+	}
+	for _, t := range tracks {
+		put("/upload/ch/"+t.name+"/init"+t.ext, t.init)
+	}
+	// a late track: registered (init) from the start, its media only from lateFrom on — after the master has started
+	lateTrack, lateFrom := -1, 0
+	if len(tracks) > 1 && r.Intn(2) == 0 {
+		lateTrack, lateFrom = 1+r.Intn(len(tracks)-1), r.Range(2, 5)
+		tag += fmt.Sprintf(" late track %s from segment %d", tracks[lateTrack].name, lateFrom)
+		count("receiver-storage-runs.late-track")
+	}
+	setTag(tag)
+	for k := 0; k < nSegs && !bad; k++ {
+		for ti, t := range tracks {
+			if ti == lateTrack && k < lateFrom {
+				continue
+			}
+			b, err := readAsset(fmt.Sprintf(t.src, k%4+1))
+			if err != nil {
+				continue
+			}
+			f, err := mp4.DecodeFile(bytes.NewReader(b))
+			if err != nil {
+				continue
+			}
+			fr := f.Segments[0].Fragments[0]
+			fr.Moof.Mfhd.SequenceNumber = inSeq0 + uint32(k)
+			dt := (uint64(seq0)+uint64(k))*2*t.ts + off*t.ts/90000
+			if t.ts == 48000 {
+				dt = dt / 1024 * 1024
+			}
+			fr.Moof.Traf.Tfdt.SetBaseMediaDecodeTime(dt)
+			var buf bytes.Buffer
+			_ = f.Segments[0].Encode(&buf)
+			put(fmt.Sprintf("/upload/ch/%s/%d%s", t.name, inSeq0+uint32(k), t.ext), buf.Bytes())
+		}
+		time.Sleep(2 * time.Millisecond)
+	}
+	time.Sleep(80 * time.Millisecond) // the channel goroutine writes the MPD
+	count("receiver-storage-runs")
+	if shifted {
+		count("receiver-storage-runs.shifted")
+	}
+	if !bad {
+		maxBuf := int(tsbd*90000/180000) + 2 // maxNrBufSegs = tsbd * timescale / segment duration + 2
+		stored := map[string]map[int]bool{}
+		for _, t := range tracks {
+			stored[t.name] = map[int]bool{}
+			ents, _ := os.ReadDir(filepath.Join(dir, "ch", t.name))
+			for _, e := range ents {
+				if m := regexp.MustCompile(`^(\d+)\.cmf[avt]$`).FindStringSubmatch(e.Name()); m != nil {
+					n, _ := strconv.Atoi(m[1])
+					stored[t.name][n] = true
+				}
+			}
+			// numbers in the range of the incoming numbering of a shifted channel: stored before the shift was known
+			var leftover, window []int
+			for n := range stored[t.name] {
+				if shifted && n >= int(inSeq0) && n < int(inSeq0)+nSegs {
+					leftover = append(leftover, n)
+				} else {
+					window = append(window, n)
+				}
+			}
+			sort.Ints(leftover)
+			sort.Ints(window)
+			if len(window)+len(leftover) > maxBuf {
+				viol("storage-window", fmt.Sprintf("track %s keeps %d media segments %v %v, the window implied by timeShiftBufferDepth=%d s is %d", t.name, len(window)+len(leftover), leftover, window, tsbd, maxBuf), []string{tag}, nil)
+				break
+			}
+			// a file stored under its incoming number has to leave at the pace of the others: once maxBuf later uploads arrived
+			if len(leftover) > 0 && leftover[0] <= int(inSeq0)+nSegs-1-maxBuf {
+				viol("storage-unshifted-leftover", fmt.Sprintf("track %s still stores %v, uploaded before the channel turned out to be shifted: listed by no MPD and never deleted (window %v)", t.name, leftover, window), []string{tag}, nil)
+				break
+			}
+			if len(stored[t.name]) == 0 {
+				viol("storage-empty", "track "+t.name+" has no stored segment after the run", []string{tag}, nil)
+			}
+		}
+		if mb, err := os.ReadFile(filepath.Join(dir, "ch", "manifest_timeline_nr.mpd")); err == nil {
+			if m, err := parseMPD(mb); err == nil && len(m.Periods) == 1 {
+				for i := range m.Periods[0].Sets {
+					as := &m.Periods[0].Sets[i]
+					if as.SegmentTemplate == nil || as.SegmentTemplate.StartNumber == nil {
+						continue
+					}
+					sn := int(*as.SegmentTemplate.StartNumber)
+					cnt := len(expandTL(as.SegmentTemplate))
+					for _, rp := range as.Representations {
+						for n := sn; n < sn+cnt; n++ {
+							if st, ok := stored[rp.ID]; ok && !st[n] {
+								viol("listed-not-stored", fmt.Sprintf("the timeline MPD lists number %d for %s but no such file is stored (stored: %d files)", n, rp.ID, len(st)), []string{tag}, nil)
+								n = sn + cnt
+							}
+						}
+					}
+					count("receiver-mpd-sets-checked")
+				}
+			}
+		}
+	}
+	cancel()
+	os.RemoveAll(dir)
 }
 
 func maxInt(a, b int) int {
